@@ -37,6 +37,27 @@ Theorem C12_total_asyncio_udp : C12_total_statement AioUdp.
 Proof. intros FS Req Resp World E c sv k i. apply total_generated. reflexivity. Qed.
 Print Assumptions C12_total_asyncio_udp.
 
+(* every server class found in the three modules (enumerated from the source; an unknown handler
+   class or a server whose handler cannot be determined is a translator failure), TLS variants
+   included: whichever of them serves with a catch-all handler never lets anything escape *)
+Theorem C12_total_servers : forall name fe, In (name, fe) servers -> catch_all_fe fe = true ->
+  C12_total_statement fe.
+Proof. intros name fe _ H FS Req Resp World E c sv k i. apply total_generated. exact H. Qed.
+Print Assumptions C12_total_servers.
+
+Theorem C12_total_tls :
+  (In ("sync.ModbusTlsServer"%string, SyncTcp) servers /\ C12_total_statement SyncTcp) /\
+  (In ("async_io.ModbusTlsServer"%string, AioTcp) servers /\ C12_total_statement AioTcp) /\
+  (* and the catalogue is complete: every listed server is threaded/asyncio (total) or Twisted (refuted) *)
+  forall name fe, In (name, fe) servers -> catch_all_fe fe = true \/ fe = TwTcp \/ fe = TwUdp.
+Proof.
+  split; [split; [vm_compute; tauto | exact C12_total_sync_tcp]|].
+  split; [split; [vm_compute; tauto | exact C12_total_asyncio_tcp]|].
+  intros name fe H. vm_compute in H.
+  repeat (destruct H as [H|H]; [inversion H; subst; vm_compute; tauto|]). contradiction.
+Qed.
+Print Assumptions C12_total_tls.
+
 (* every exception class of the framer/decoder/execute layer, every transport fault — and for
    the threaded TCP handler (bare `except:`) and asyncio (CancelledError) more than that *)
 Theorem C12_ladders_total : forall fe, catch_all_fe fe = true ->
